@@ -12,6 +12,7 @@ import Driver.Codec
 import Driver.Bt
 import Driver.Bb
 import Driver.Rd
+import Driver.Hp
 
 open Codec
 
@@ -56,6 +57,7 @@ partial def loop (hin hout : IO.FS.Stream) : IO Unit := do
         | "bb" => runBb body.toList
         | "name" => runName body.toList
         | "rd" => Rd.run body.toList
+        | "heap" => Hp.run body.toList
         | _ => ["bad-family"]
       for l in out do hout.putStrLn l
       hout.putStrLn "end"
